@@ -23,7 +23,7 @@ def make_cases(chk):
     rng = chk.rng
     quick = chk.tier == "quick"
     cases = []
-    for i in range(360 if quick else 8000):
+    for i in range(360 if quick else 40000):
         cat = CATS[i % len(CATS)]
         n = rng.choice([1, 2, 2, 3] if quick else [1, 2, 2, 3, 3, 4])
         A, b = gen_system(rng, cat, n, not quick)
